@@ -442,7 +442,11 @@ fn gen_op(rng: &mut Rng, k: usize, d: u8, light: bool) -> Op {
         }
         "X" => {
             let dd = if d >= 29 { 0 } else { rng.range(0, if light { 1 } else { 3 }).min((29 - d) as u64) as u8 };
-            Op::X { d, h: rng.below(n_hash(d)), dd }
+            // base cells 4..=11 only: for north-polar-cap cells the library prints a debug line
+            // (src/lib.rs `npc_egde_direction_from_neighbour`), and taking the stdout lock inside
+            // a racing thread would add a synchronisation edge the harness must not introduce
+            let nh = n_hash(d);
+            Op::X { d, h: nh / 3 + rng.below(nh - nh / 3), dd }
         }
         "B" => Op::B { d, lon, lat: lat.max(-1.57).min(1.57) },
         "R" => Op::R { d, h: rng.below(n_hash(d)) },
